@@ -244,6 +244,18 @@ where
     }
 }
 
+/// A sender in transport, borrowed from the sender being serialized.
+///
+/// Must serialize exactly like [TransportedSender].
+#[derive(Serialize)]
+#[serde(rename = "TransportedSender")]
+#[serde(bound(serialize = "Codec: codec::Codec"))]
+struct TransportedSenderRef<'a, Codec> {
+    bin_sender: &'a Option<bin::Sender>,
+    size_mode: &'a SizeMode<Codec>,
+    bytes_written: u64,
+}
+
 impl<Codec> Serialize for Sender<Codec>
 where
     Codec: codec::Codec,
@@ -252,14 +264,17 @@ where
     where
         S: serde::Serializer,
     {
-        let bin_sender = self.bin_sender.lock().unwrap().take();
-        let size_mode = mem::replace(
-            &mut *self.size_mode.lock().unwrap(),
-            SizeMode::Known(0), // Placeholder, sender is consumed anyway
-        );
+        // The sender may be serialized more than once for a single transfer (buffered attempt
+        // followed by streaming), thus serialization must not consume its contents.
+        let bin_sender = self.bin_sender.lock().unwrap();
+        let size_mode = self.size_mode.lock().unwrap();
 
-        TransportedSender::<Codec> { bin_sender, size_mode, bytes_written: self.bytes_written }
-            .serialize(serializer)
+        TransportedSenderRef::<Codec> {
+            bin_sender: &bin_sender,
+            size_mode: &size_mode,
+            bytes_written: self.bytes_written,
+        }
+        .serialize(serializer)
     }
 }
 
